@@ -40,6 +40,13 @@ theorem kstep_inserting (v : KvVariant) : Inserting (kstep v) := by
       · split
         · exact Or.inl rfl
         · exact Or.inr ⟨_, _, _, rfl⟩
+    | recheckLockedCached =>
+      simp only []
+      split
+      · exact Or.inl rfl
+      · split
+        · exact Or.inl rfl
+        · exact Or.inr ⟨_, _, _, rfl⟩
   | done i => exact Or.inl rfl
 
 /-- a step never changes which name the caller asks for -/
